@@ -874,3 +874,15 @@ Theorem negative_length p family wh ag al n addr addrlen fam2 :
   parse_uri_reply true p = (ARES_EBADRESP, []) /\ parse_txt_reply true p = (ARES_EBADRESP, []) /\
   parse_txt_reply_ext true p = (ARES_EBADRESP, []) /\ parse_soa_reply true p = (ARES_EBADRESP, None).
 Proof. split; [eexists; split; [reflexivity | split; reflexivity] | repeat split]. Qed.
+
+(* TTL values: the legacy structs carry the TTL as int, the record API as unsigned int; a TTL
+   with the top bit set is therefore NOT handed out with the record API's value *)
+Lemma addr_ttl_identical_refuted :
+  exists rec r a ttl,
+    parse_addr_reply LEG_AF_INET false (Parsed rec) false true 1 (Some 1) = Ok r /\
+    r_answers rec = [mkRR [119] ARES_CLASS_IN ttl (RD_A a)] /\ 0 <= ttl < 2 ^ 32 /\
+    ar_written r <> [(a, ttl)].
+Proof.
+  exists (mkRec 0 [mkQ [119] ARES_REC_TYPE_A ARES_CLASS_IN] [mkRR [119] ARES_CLASS_IN 4294967295 (RD_A [10; 0; 0; 1])]).
+  eexists _, _, _. split; [vm_compute; reflexivity|]. split; [reflexivity|]. split; [lia|]. discriminate.
+Qed.
